@@ -427,12 +427,36 @@ fn str_canon(s: &str) -> String {
 /// conversions.  Returns None when the combination is outside the property's domain (the
 /// generator must not produce it).
 pub fn eval(op: Op, args: &[Num], extra: u32) -> Option<Expect> {
+    eval_out(op, args, extra).map(|o| match o {
+        Out::Nums(v) => Expect::nums(&v),
+        Out::Bool(b) => Expect::bool(b),
+        Out::Text(s) => Expect::one(s),
+        Out::Err => Expect::Err,
+    })
+}
+
+/// result of the model before rendering
+#[derive(Clone, Debug)]
+pub enum Out {
+    /// acceptable numeric results (first = preferred)
+    Nums(Vec<Num>),
+    Bool(bool),
+    /// already rendered canonical text (strings, lists)
+    Text(String),
+    Err,
+}
+
+fn nums_out(v: &[Num]) -> Out {
+    Out::Nums(cap(v.to_vec()))
+}
+
+pub fn eval_out(op: Op, args: &[Num], extra: u32) -> Option<Out> {
     use Op::*;
     match op {
         Add | Mul => {
             let unit = if op == Add { int(0) } else { int(1) };
             if args.is_empty() {
-                return Some(Expect::nums(&[unit]));
+                return Some(nums_out(&[unit]));
             }
             let mut acc = vec![args[0].clone()];
             for a in &args[1..] {
@@ -465,7 +489,7 @@ pub fn eval(op: Op, args: &[Num], extra: u32) -> Option<Expect> {
                 acc.extend(acc2.into_iter().map(Num::Fl));
                 acc = cap(acc);
             }
-            Some(Expect::nums(&acc))
+            Some(nums_out(&acc))
         }
         Sub | Div => {
             if args.is_empty() {
@@ -476,14 +500,14 @@ pub fn eval(op: Op, args: &[Num], extra: u32) -> Option<Expect> {
                 // (- x) is negation: for doubles it flips the sign bit (IEEE negate), which
                 // differs from 0 - x only for x = 0.0; both are accepted.
                 return match arith2(op, &unit, &args[0]) {
-                    None => Some(Expect::Err),
+                    None => Some(Out::Err),
                     Some(mut v) => {
                         if op == Sub {
                             if let Num::Fl(f) = &args[0] {
                                 v.push(Num::Fl(-*f));
                             }
                         }
-                        Some(Expect::nums(&cap(v)))
+                        Some(nums_out(&cap(v)))
                     }
                 };
             }
@@ -500,7 +524,7 @@ pub fn eval(op: Op, args: &[Num], extra: u32) -> Option<Expect> {
                 if err {
                     // exact zero divisor after exact operands: an error.  (A float dividend
                     // with an exact zero divisor is left open by R7RS: not generated.)
-                    return Some(Expect::Err);
+                    return Some(Out::Err);
                 }
                 acc = cap(next);
             }
@@ -526,7 +550,7 @@ pub fn eval(op: Op, args: &[Num], extra: u32) -> Option<Expect> {
                 acc.extend(acc2.into_iter().map(Num::Fl));
                 acc = cap(acc);
             }
-            Some(Expect::nums(&acc))
+            Some(nums_out(&acc))
         }
         Quotient | Remainder | Modulo => {
             if args.len() != 2 {
@@ -535,7 +559,7 @@ pub fn eval(op: Op, args: &[Num], extra: u32) -> Option<Expect> {
             let a = as_int(&args[0])?;
             let b = as_int(&args[1])?;
             if b.is_zero() {
-                return Some(Expect::Err);
+                return Some(Out::Err);
             }
             let r = match op {
                 Quotient => &a / &b,            // truncating
@@ -543,7 +567,7 @@ pub fn eval(op: Op, args: &[Num], extra: u32) -> Option<Expect> {
                 Modulo => a.mod_floor(&b),      // sign of divisor
                 _ => unreachable!(),
             };
-            Some(Expect::nums(&[big(r)]))
+            Some(nums_out(&[big(r)]))
         }
         NumEq | Lt | Gt | Le | Ge => {
             if args.is_empty() {
@@ -566,15 +590,15 @@ pub fn eval(op: Op, args: &[Num], extra: u32) -> Option<Expect> {
                     ok = false;
                 }
             }
-            Some(Expect::bool(ok))
+            Some(Out::Bool(ok))
         }
         Abs => {
             if args.len() != 1 {
                 return None;
             }
             Some(match &args[0] {
-                Num::Ex(r) => Expect::nums(&[Num::Ex(r.abs())]),
-                Num::Fl(f) => Expect::nums(&[Num::Fl(f.abs())]),
+                Num::Ex(r) => nums_out(&[Num::Ex(r.abs())]),
+                Num::Fl(f) => nums_out(&[Num::Fl(f.abs())]),
             })
         }
         Gcd | Lcm => {
@@ -584,7 +608,7 @@ pub fn eval(op: Op, args: &[Num], extra: u32) -> Option<Expect> {
             let a = as_int(&args[0])?;
             let b = as_int(&args[1])?;
             let r = if op == Gcd { a.gcd(&b) } else { a.lcm(&b).abs() };
-            Some(Expect::nums(&[big(r)]))
+            Some(nums_out(&[big(r)]))
         }
         Expt => {
             if args.len() != 2 {
@@ -596,14 +620,14 @@ pub fn eval(op: Op, args: &[Num], extra: u32) -> Option<Expect> {
             };
             let e = as_int(&args[1])?.to_i64()?;
             if base.is_zero() && e < 0 {
-                return Some(Expect::Err);
+                return Some(Out::Err);
             }
             let r = if e >= 0 {
                 num_traits::pow(base, e as usize)
             } else {
                 num_traits::pow(base.recip(), (-e) as usize)
             };
-            Some(Expect::nums(&[Num::Ex(r)]))
+            Some(nums_out(&[Num::Ex(r)]))
         }
         ExactIntegerSqrt => {
             if args.len() != 1 {
@@ -611,18 +635,18 @@ pub fn eval(op: Op, args: &[Num], extra: u32) -> Option<Expect> {
             }
             let n = as_int(&args[0])?;
             if n.is_negative() {
-                return Some(Expect::Err);
+                return Some(Out::Err);
             }
             let s = isqrt(&n);
             let rem = &n - &s * &s;
-            Some(Expect::one(format!("({} {})", canon(&big(s)), canon(&big(rem)))))
+            Some(Out::Text(format!("({} {})", canon(&big(s)), canon(&big(rem)))))
         }
         NumberToString => {
             if args.len() != 1 {
                 return None;
             }
             match &args[0] {
-                Num::Ex(r) => Some(Expect::one(str_canon(&radix_string(r, extra)))),
+                Num::Ex(r) => Some(Out::Text(str_canon(&radix_string(r, extra)))),
                 _ => None,
             }
         }
@@ -632,7 +656,7 @@ pub fn eval(op: Op, args: &[Num], extra: u32) -> Option<Expect> {
                 return None;
             }
             match &args[0] {
-                Num::Ex(_) => Some(Expect::nums(&[args[0].clone()])),
+                Num::Ex(_) => Some(nums_out(&[args[0].clone()])),
                 _ => None,
             }
         }
@@ -655,9 +679,9 @@ pub fn eval(op: Op, args: &[Num], extra: u32) -> Option<Expect> {
                     Num::Ex(r) => to_f64_candidates(r).into_iter().map(Num::Fl).collect(),
                     f => vec![f.clone()],
                 };
-                Some(Expect::nums(&c))
+                Some(nums_out(&c))
             } else {
-                Some(Expect::nums(&[best]))
+                Some(nums_out(&[best]))
             }
         }
         Floor | Ceiling | Truncate | Round => {
@@ -688,7 +712,7 @@ pub fn eval(op: Op, args: &[Num], extra: u32) -> Option<Expect> {
                         }
                         _ => unreachable!(),
                     };
-                    Expect::nums(&[Num::Ex(v)])
+                    nums_out(&[Num::Ex(v)])
                 }
                 Num::Fl(f) => {
                     let v = match op {
@@ -706,7 +730,7 @@ pub fn eval(op: Op, args: &[Num], extra: u32) -> Option<Expect> {
                         }
                         _ => unreachable!(),
                     };
-                    Expect::nums(&[Num::Fl(v)])
+                    nums_out(&[Num::Fl(v)])
                 }
             })
         }
@@ -715,8 +739,8 @@ pub fn eval(op: Op, args: &[Num], extra: u32) -> Option<Expect> {
                 return None;
             }
             Some(match &args[0] {
-                Num::Ex(r) => Expect::nums(&to_f64_candidates(r).into_iter().map(Num::Fl).collect::<Vec<_>>()),
-                f => Expect::nums(&[f.clone()]),
+                Num::Ex(r) => nums_out(&to_f64_candidates(r).into_iter().map(Num::Fl).collect::<Vec<_>>()),
+                f => nums_out(&[f.clone()]),
             })
         }
         Numerator | Denominator => {
@@ -724,7 +748,7 @@ pub fn eval(op: Op, args: &[Num], extra: u32) -> Option<Expect> {
                 return None;
             }
             match &args[0] {
-                Num::Ex(r) => Some(Expect::nums(&[big(if op == Numerator { r.numer().clone() } else { r.denom().clone() })])),
+                Num::Ex(r) => Some(nums_out(&[big(if op == Numerator { r.numer().clone() } else { r.denom().clone() })])),
                 _ => None,
             }
         }
@@ -733,8 +757,8 @@ pub fn eval(op: Op, args: &[Num], extra: u32) -> Option<Expect> {
                 return None;
             }
             Some(match &args[0] {
-                Num::Ex(r) => Expect::nums(&[Num::Ex(r * r)]),
-                Num::Fl(f) => Expect::nums(&[Num::Fl(f * f)]),
+                Num::Ex(r) => nums_out(&[Num::Ex(r * r)]),
+                Num::Fl(f) => nums_out(&[Num::Fl(f * f)]),
             })
         }
     }
